@@ -90,7 +90,7 @@ func RemovePackage(pkg *Package) {
 				break
 			}
 		}
-		for _, u := range pkg.Uses {
+		for _, u := range append([]*Package{}, pkg.Uses...) { // Unuse edits pkg.Uses
 			pkg.Unuse(u)
 		}
 		pkg.Name = ""
